@@ -111,6 +111,10 @@ func TestC09(t *testing.T) {
 	forCases(t, 64, func(c spec.Case, e Em) {
 		var p spec.C09Case
 		param(c, &p)
+		if p.Kind == "muxraw" {
+			c09Raw(c, p, e)
+			return
+		}
 		pr, err := newPair(t, p.Kind)
 		if err != nil {
 			e.Note("pair-error", err.Error())
